@@ -115,7 +115,23 @@ impl Property for C11 {
             stats.count("discard_too_large", 1);
             return Ok(());
         };
-        let reg: &PortableRegistry = &case.low.registry;
+        // sometimes a copy of a user type under another namespace (`zz_other::zq::Name`) is appended: two registry
+        // paths with one final identifier in different modules, the later one closer to a query `wrong::zq::Name`
+        let mut reg_owned: PortableRegistry = case.low.registry.clone();
+        let mut twin: Option<String> = None;
+        if t.chance(90) {
+            let users: Vec<usize> = (0..reg_owned.types.len()).filter(|i| reg_owned.types[*i].ty.path.segments.len() >= 2).collect();
+            if !users.is_empty() {
+                let k = users[t.choose(users.len())];
+                let mut copy = reg_owned.types[k].clone();
+                let last = copy.ty.path.segments.last().cloned().unwrap_or_default();
+                copy.ty.path = scale_info::Path::from_segments_unchecked(vec!["zz_other".to_string(), "zq".to_string(), last.clone()]);
+                copy.id = reg_owned.types.len() as u32;
+                reg_owned.types.push(copy);
+                twin = Some(last);
+            }
+        }
+        let reg: &PortableRegistry = &reg_owned;
         let mut labels_prelude = false;
         // every path of the registry, scale-info's single-segment prelude paths (Option, BTreeMap, Cow ...) included:
         // they are registry paths like any other (subxt substitutes BTreeMap)
@@ -300,10 +316,14 @@ impl Property for C11 {
                 Some(l) => l.clone(),
                 None => "Unknown".to_string(),
             };
-            let query = match t.weighted(&[2, 2, 1]) {
-                0 => format!("wrong::prefix::{last}"),
-                1 => last.clone(),
-                _ => format!("{last}Nope"),
+            let query = match (t.weighted(&[2, 2, 1, 2]), &twin) {
+                (0, _) => format!("wrong::prefix::{last}"),
+                (1, _) => last.clone(),
+                (2, _) => format!("{last}Nope"),
+                // shares two trailing segments with the appended twin, one with the original (which comes first)
+                (_, Some(name)) => format!("wrong::zq::{name}"),
+                (_, None) if pick.len() >= 2 => format!("wrong::{}", pick[1..].join("::")),
+                _ => last.clone(),
             };
             let qp: syn::Path = syn::parse_str(&query).unwrap();
             let qlast = qp.segments.last().unwrap().ident.to_string();
